@@ -103,14 +103,15 @@ StrWidet  == {"a", aUml, Hira, Emoji, Acute, "."}
 TokErr    == {"[", "]"}
 MacErr    == {"a-", "-a", "[:digit:]", "[:nothing:]", "[..]", "[==]", "[.a.]"}
 StrErr    == {"a", "1", "-"}
-TokErrQ   == {"]", "-a", "a"}
-MacErrQ   == {"[[:digit:]", "[[:nothing:]", "[[..]", "[[==]", "[a-[:digit:]", "[[.a.]", "[[:alpha:]"}
+TokErrQ   == {"]", "a"}
+MacErrQ   == {"-a", "[[:digit:]", "[[:nothing:]", "[[..]", "[[==]", "[a-[:digit:]", "[[.a.]", "[[:alpha:]"}
 \* the shell
 TokSh     == {"a", "A", ".", "*", "?", aUml}
 LitSh     == {"*", "?", "+", "."}
 MacSh     == {"[.]", "[!a]"}
 StrSh     == {"a", "A", ".", "*", "+", aUml, AUml}
 
+ASSUME \A c \in PNorm \cup PLit \cup SAlpha : Len(c) = 1 \/ c \in WideChars
 Tokens == {<<Nc(c)>> : c \in PNorm} \cup {<<Lc(c)>> : c \in PLit}
           \cup {WithoutEscape(Explode(m)) : m \in PMacro}
 
